@@ -64,9 +64,9 @@ Section Dec.
         else if is_tok "p" t then Some (Leaf LProbe, r)
         else if is_tok "b" t then dbind (dec_num r) (fun k r1 => Some (Leaf (LBreak k), r1))
         else if is_tok "c" t then dbind (dec_num r) (fun k r1 => Some (Leaf (LContinue k), r1))
-        else if is_tok "r" t then dbind (dec_num r) (fun k r1 => Some (Leaf (LReturn (Some k)), r1))
+        else if is_tok "r" t then match r with k :: r1 => Some (Leaf (LReturn (Some (dec_Z k))), r1) | [] => None end
         else if is_tok "R" t then Some (Leaf (LReturn None), r)
-        else if is_tok "x" t then dbind (dec_num r) (fun k r1 => Some (Leaf (LExit (Some k)), r1))
+        else if is_tok "x" t then match r with k :: r1 => Some (Leaf (LExit (Some (dec_Z k))), r1) | [] => None end
         else if is_tok "X" t then Some (Leaf (LExit None), r)
         else if is_tok "s" t then
           match r with o :: r1 => dbind (dec_flag r1) (fun b r2 => Some (Leaf (LSet (dec_sopt o) b), r2)) | [] => None end
